@@ -158,7 +158,7 @@ def coverage_zero_actions(out_path, actions):
     that were never taken."""
     seen = {}
     for line in open(out_path, errors="replace"):
-        m = re.match(r"<(\w+) line \d+, col \d+ to line \d+, col \d+ of module (\w+)>: (\d+):(\d+)", line)
+        m = re.match(r"<(\w+) line \d+, col \d+ to line \d+, col \d+ of module (\w+)(?: \([\d ]+\))?>: (\d+):(\d+)", line)
         if m:
             seen[m.group(1)] = max(seen.get(m.group(1), 0), int(m.group(4)))
     return [a for a in actions if seen.get(a, 0) == 0]
